@@ -56,6 +56,10 @@ def run_steps(pid, steps):
         elif op == 'return':
             vrec('done', pid, i)
             return st[1]
+        elif op == 'unique':
+            task.unique(st[1])
+        elif op == 'unique_km':
+            task.unique(st[1], kill_me=True)
         elif op == 'executor':
             try:
                 r = task.executor(vnative, st[1])
@@ -106,7 +110,7 @@ def gen(R):
         steps = []
         children = []
         for j in range(R.int(2, 6)):
-            kind = R.weighted([(5, "sleep"), (3, "create"), (2, "wait"), (5, "add_cb"), (1, "remove_cb"), (1, "raise"), (1, "cancel_child"), (1, "executor"), (1, "cancel_self")])
+            kind = R.weighted([(5, "sleep"), (3, "create"), (2, "wait"), (5, "add_cb"), (1, "remove_cb"), (1, "raise"), (1, "cancel_child"), (1, "executor"), (1, "cancel_self"), (2, "unique"), (1, "contest")])
             if kind == "sleep":
                 steps.append(["sleep", R.choice([1.0, 2.0, 4.0])])
             elif kind == "create":
@@ -128,6 +132,20 @@ def gen(R):
                 steps.append(["cancel", R.choice(children)])
             elif kind == "executor":
                 steps.append(["executor", R.choice([3, -1])])
+            elif kind == "unique":
+                steps.append(["unique", f"name-{pid}-{j}"])
+            elif kind == "contest":
+                # this run owns a name; a child asks the reaper to cancel a sleeping sibling and, in the same instant,
+                # claims the name with kill_me=True: the child has to end at that statement
+                if not any(s_[0] == "unique" and s_[1] == f"own-{pid}" for s_ in steps):
+                    steps.append(["unique", f"own-{pid}"])
+                sib = f"{pid}c{len(children)}"
+                children.append(sib)
+                steps.append(["create", sib, [["sleep", 4.0]]])
+                cp = f"{pid}c{len(children)}"
+                children.append(cp)
+                steps.append(["create", cp, [["cancel", sib], ["unique_km", f"own-{pid}"], ["sleep", 1.0]]])
+                steps.append(["sleep", 2.0])
             elif kind == "cancel_self":
                 steps.append(["cancel_self"])
                 break
@@ -135,7 +153,14 @@ def gen(R):
     fault = None
     if R.bool(2, 3):
         victim = R.choice(tasks)
-        fault = {"pid": victim["pid"], "at": victim["start"] + R.choice([0.5, 1.5, 2.5, 3.5, 5.5])}
+        if R.bool(3, 4):
+            # aim at a suspension point of the victim: an instant strictly inside one of its own sleeps
+            if not any(s_[0] == "sleep" for s_ in victim["steps"]):
+                victim["steps"].insert(R.int(0, len(victim["steps"]) - 1) if len(victim["steps"]) > 1 else 0, ["sleep", 2.0])
+            total = sum(s_[1] for s_ in victim["steps"] if s_[0] == "sleep")
+            fault = {"pid": victim["pid"], "at": victim["start"] + R.choice([x + 0.5 for x in range(int(total))])}
+        else:
+            fault = {"pid": victim["pid"], "at": victim["start"] + R.choice([0.5, 1.5, 2.5, 3.5, 5.5])}
     return {"legacy": R.bool(), "tasks": tasks, "fault": fault}
 
 
@@ -275,6 +300,23 @@ def analyse(case, r_fault, r_clean):
                 exp_state = r["states"].get(target)
                 if cancelled != (exp_state == "cancelled"):
                     problems.append(f"{label}:cancelled-flag")
+        # 3b. a run that loses task.unique(name, kill_me=True) against a live owner ends at that statement
+        for t in case["tasks"]:
+            own = [i for i, s_ in enumerate(t["steps"]) if s_[0] == "unique" and s_[1] == f"own-{t['pid']}"]
+            if not own:
+                continue
+            owned_from = next((x[0] for x in order if x[1][1] == t["pid"] and x[1][2] == own[0]), None)
+            for s_ in t["steps"]:
+                if s_[0] != "create":
+                    continue
+                for ci, cs in enumerate(s_[2]):
+                    if cs[0] != "unique_km":
+                        continue
+                    at = next((x[0] for x in r["recs"] if x[1][0] == "step" and x[1][1] == s_[1] and x[1][2] == ci), None)
+                    if at is None or owned_from is None or owned_from > at or (ended_at.get(t["pid"]) or 0) <= at:
+                        continue
+                    if (s_[1], ci) in done_steps or r["states"].get(s_[1]) != "cancelled":
+                        problems.append(f"{label}:kill-me-loser-continued")
         # 4. registries are clean at quiescence
         if r["left"]["our_tasks"] != r["base"]["our_tasks"] or r["left"]["task2cb"] != r["base"]["task2cb"] or r["left"]["task2context"] != r["base"]["task2context"] or r["left"]["unique"]:
             problems.append(f"{label}:registry-not-clean")
